@@ -238,7 +238,7 @@ func c14sRun(sc c14sScenario) (vs []ev.V) {
 
 func TestVerifC14Submission(t *testing.T) {
 	r := ev.Get("C14")
-	ev.Run(t, r, ev.Spec[c14sScenario]{Name: "submission-gate", N: r.Scale(1, 1, 100), Gen: c14sGen, Run: c14sRun, Info: func(sc c14sScenario) ev.Info {
+	ev.Run(t, r, ev.Spec[c14sScenario]{Name: "submission-gate", Journal: true, N: r.Scale(1, 1, 100), Gen: c14sGen, Run: c14sRun, Info: func(sc c14sScenario) ev.Info {
 		authSeen, mailBefore, validSeen := false, false, false
 		for _, st := range sc.Steps {
 			if strings.HasPrefix(st.Op, "AUTH") {
